@@ -266,6 +266,34 @@ Definition check_relock_model (univ : list (string * list cand)) (locks : bymap)
         end
     end) relock).
 
+(* the ORIGIN itself through the resolver model: each architecture's universe, the world file of the request list
+   (sorted, duplicate-free), the cross-architecture disqualification of C14's model (Resolver.dq_for). Ordered
+   (name, version) lists; when the implementation failed, the model must fail on some architecture. This is the
+   hypothesis `resolve U W dq0 = Ok S` of the fixpoint theorems, observed. *)
+Definition runiverse (U : list cand) : Resolver.universe :=
+  List.filter (fun p => String.eqb (Resolver.p_pin p) "") (List.map rpkg_of_cand U) ++
+  List.filter (fun p => negb (String.eqb (Resolver.p_pin p) "")) (List.map rpkg_of_cand U).
+Definition check_origin_model (c : api_case) : list string :=
+  let by_arch := List.map (fun au => (fst au, runiverse (snd au))) (e_universe c) in
+  let W := LockBuild.world_of (e_originals c) in
+  let models := List.map (fun au =>
+      (fst au, match Resolver.resolve (snd au) W (Resolver.dq_for by_arch (fst au)) with
+               | Ok l => Some (Some (List.map (fun j => let p := nth j (snd au) Resolver.dummy_pkg in (Resolver.p_name p, Resolver.p_version p)) l))
+               | Err => Some None
+               | Panic | OutOfFuel => None
+               end)) by_arch in
+  match e_resolution c with
+  | None => tag_if (forallb (fun m => match snd m with Some (Some _) => true | _ => false end) models) "mismatch:origin-model-ok-impl-error"
+  | Some res =>
+      List.concat (List.map (fun m =>
+        match snd m, alookup (fst m) res with
+        | Some (Some l), Some ps => tag_if (negb (list_eqb nv_eqb l (nv_of ps))) "mismatch:origin-resolver-model-differs"
+        | Some None, Some _ => ["mismatch:origin-model-error-impl-ok"]
+        | None, _ => ["mismatch:origin-model-panic-or-out-of-fuel"]
+        | _, None => ["mismatch:origin-of-unknown-arch"]
+        end) models)
+  end.
+
 Definition judge_index_relock (univ : list (string * list cand)) (res : list (string * list opkg)) (locks : bymap)
     (ir : option (option (list (string * list (string * string))))) : list string :=
   match ir with
@@ -292,6 +320,7 @@ Definition judge_index_relock (univ : list (string * list cand)) (res : list (st
   end.
 
 Definition check_api (c : api_case) : list string :=
+  check_origin_model c ++
   match e_resolution c with
   | None =>
       tag_if (negb (forallb (fun o => match o with UErr => true | _ => false end) (e_lock_runs c)))
